@@ -169,7 +169,11 @@ fn c12_slit_diagonal_and_mirrored_assignments() {
     for n in 1..=4usize {
         let mut t = SLIT::new(*b"FOOBAR", *b"DECAFCOF", 1, n as u32);
         let mut model = vec![10u8; n * n];
-        check_table("SLIT(new)", &ser(&t));
+        let img0 = ser(&t);
+        check_table("SLIT(new)", &img0);
+        assert_eq!(img0.len(), 44 + n * n, "SLIT::new({}): header + locality count + n*n entries", n);
+        assert_eq!(u64::from_le_bytes(img0[36..44].try_into().unwrap()), n as u64, "SLIT::new({}): number of localities", n);
+        assert!(img0[44..].iter().all(|x| *x == 10), "SLIT::new({}): every distance starts at 10", n);
         let ops: Vec<(usize, usize, u8)> = (0..n).flat_map(|a| (0..n).map(move |b| (a, b, (20 + 7 * a + 3 * b) as u8))).collect();
         for (a, b, v) in ops.iter().chain(ops.iter().rev()) {
             t.set_distance(*a, *b, *v);
@@ -676,8 +680,14 @@ fn c15_package_builder_equals_package() {
         for e in &els { pb.add_element(e); }
         assert_eq!(ser(&pb), ser(&Package::new(refs)), "{} elements", n);
     }
-    let s = "a string";
-    assert_eq!(ser(&s), ser(&s.to_string()));
+    for s in ["a string", "", "x", "caf\u{e9}", "Temp \u{b0}C", "\u{4e2d}\u{6587}", "tab\tquote\"", "\u{7f}\u{80}\u{ff}\u{100}"] {
+        let owned = s.to_string();
+        assert_eq!(ser(&s), ser(&owned), "borrowed vs owned string {:?}", s);
+        let mut want = vec![0x0d];
+        want.extend_from_slice(s.as_bytes());
+        want.push(0);
+        assert_eq!(ser(&owned), want, "string {:?}: StringPrefix, the string's bytes, NUL", s);
+    }
 }
 
 // ---- C10: resource descriptors and templates
@@ -979,7 +989,17 @@ fn c01_history_xsdt() {
     use acpi_tables::*;
     let mut t = xsdt::XSDT::new(OEM, TBL, 1);
     check_table("XSDT(new)", &ser(&t));
-    for i in 0..300u64 { t.add_entry(0x1000 * i + (i << 40)); check_table("XSDT", &ser(&t)); }
+    let mut want: Vec<u64> = Vec::new();
+    for i in 0..300u64 {
+        // repeated addresses are entries like any other (A, B, A; A, A)
+        let e = if i % 5 == 4 { want[(i as usize * 7) % want.len()] } else if i % 11 == 10 { *want.last().unwrap() } else { 0x1000 * i + (i << 40) };
+        t.add_entry(e); want.push(e);
+        let b = ser(&t);
+        check_table("XSDT", &b);
+        assert_eq!(b.len(), 36 + 8 * want.len(), "XSDT after {} add_entry calls", want.len());
+        let got: Vec<u64> = (0..want.len()).map(|k| le64_at(&b, 36 + 8 * k)).collect();
+        assert_eq!(got, want, "XSDT entries are exactly the ones added, in order");
+    }
 }
 #[test]
 fn c01_history_mcfg() {
@@ -1292,6 +1312,30 @@ fn c04_entries_decode_to_the_callers_values() {
 }
 fn xsdt_one(v: u64) -> acpi_tables::xsdt::XSDT { let mut t = acpi_tables::xsdt::XSDT::new(OEM, TBL, 1); t.add_entry(v); t }
 
+/// C05: offsets that need more than 16 bits (RIMT references are 4 bytes wide)
+#[test]
+fn c05_rimt_offsets_beyond_16_bits() {
+    use acpi_tables::*;
+    let mut t = rimt::RIMT::new(OEM, TBL, 1);
+    let io_small = t.add_iommu(rimt::Iommu::new(1, None, None, None, None));
+    t.add_platform(rimt::Platform::new(2, "a".repeat(40000), None));
+    t.add_platform(rimt::Platform::new(3, "b".repeat(40001), None));
+    let io_big = t.add_iommu(rimt::Iommu::new(4, None, None, None, None));
+    t.add_platform(rimt::Platform::new(5, "x".to_string(), Some(vec![rimt::IdMapping::new(0, 0, 1, io_big, false, false, false), rimt::IdMapping::new(1, 1, 1, io_small, false, false, false)])));
+    let b = ser(&t);
+    check_table("RIMT (large)", &b);
+    let es = walk("RIMT", &b, 48, 2, 2, 4);
+    let iommus: Vec<usize> = es.iter().filter(|(o, _)| b[*o] == 0).map(|(o, _)| *o).collect();
+    assert_eq!(iommus.len(), 2);
+    assert!(iommus[1] > 65536, "second IOMMU lies beyond 64 KiB (at {})", iommus[1]);
+    let (o, _) = es[es.len() - 1];
+    assert_eq!(b[o], 2, "last device is the platform device");
+    let (moff, n) = (le16_at(&b, o + 8) as usize, le16_at(&b, o + 10) as usize);
+    assert_eq!(n, 2);
+    assert_eq!(le32_at(&b, o + moff + 12) as usize, iommus[1], "id mapping 0 references the IOMMU added at offset {}", iommus[1]);
+    assert_eq!(le32_at(&b, o + moff + 20 + 12) as usize, iommus[0], "id mapping 1 references the first IOMMU");
+    assert_eq!(le16_at(&b, iommus[1] + 4), 4, "the referenced device is IOMMU id 4");
+}
 #[test]
 fn c05_handles_are_offsets_of_their_nodes() {
     use acpi_tables::*;
@@ -1395,13 +1439,16 @@ fn c11_option_builders_are_independent() {
     // SRAT memory affinity: every subset, two orders, with repetition
     for mask in 0..8u32 {
         let apply = |order: &[u32]| { let mut m = srat::MemoryAffinity::new(1, 2, 3); for o in order { if mask & (1 << o) != 0 { m = match o { 0 => m.enabled(), 1 => m.hotpluggable(), _ => m.nonvolatile() }; } } le32_at(&ser(&m), 28) };
-        assert_eq!(apply(&[0, 1, 2]), mask); assert_eq!(apply(&[2, 1, 0, 1, 2]), mask);
+        for ord in [[0u32, 1, 2], [0, 2, 1], [1, 0, 2], [1, 2, 0], [2, 0, 1], [2, 1, 0]] { assert_eq!(apply(&ord), mask, "SRAT memory affinity flags {:#b} in order {:?}", mask, ord); }
+        assert_eq!(apply(&[2, 1, 0, 1, 2]), mask);
     }
     // PPTT processor flags and cache attributes
     for mask in 0..32u32 {
-        let mut n = pptt::ProcessorNode::new(None, 7);
-        for o in [4u32, 0, 3, 1, 2, 0] { if mask & (1 << o) != 0 { n = match o { 0 => n.physical(), 1 => n.valid(), 2 => n.thread(), 3 => n.leaf(), _ => n.identical() }; } }
-        let b = ser(&n); assert_eq!(le32_at(&b, 4), mask); assert_eq!(le32_at(&b, 12), 7);
+        for ord in [vec![4u32, 0, 3, 1, 2, 0], vec![0, 1, 2, 3, 4], vec![4, 3, 2, 1, 0], vec![2, 4, 0, 3, 1], vec![1, 3, 0, 4, 2], vec![3, 0, 2, 4, 1]] {
+            let mut n = pptt::ProcessorNode::new(None, 7);
+            for o in ord.iter().copied() { if mask & (1 << o) != 0 { n = match o { 0 => n.physical(), 1 => n.valid(), 2 => n.thread(), 3 => n.leaf(), _ => n.identical() }; } }
+            let b = ser(&n); assert_eq!(le32_at(&b, 4), mask, "PPTT processor flags {:#b} in order {:?}", mask, ord); assert_eq!(le32_at(&b, 12), 7);
+        }
     }
     use pptt::{AllocationType as A, CacheType as C, WritePolicy as W};
     for (a, av) in [(A::Read, 0u8), (A::Write, 1), (A::Both, 2)] { for (c, cv) in [(C::Data, 0u8), (C::Instruction, 4), (C::Unified, 8)] { for (w, wv) in [(W::Writeback, 0u8), (W::Writethrough, 16)] {
@@ -1421,29 +1468,44 @@ fn c11_option_builders_are_independent() {
         assert_eq!(le32_at(&b, 12), f | pf | mf, "GICC flags"); assert_eq!(le32_at(&b, 20), 22); assert_eq!(le32_at(&b, 56), 11); assert_eq!(le64_at(&b, 68), 33); assert_eq!((b[0], b[1]), (0x0b, 82));
     } } }
     // TCPA server flags
-    for mask in 0..128u32 {
+    let orders: Vec<Vec<u32>> = {
+        let base = [6u32, 2, 0, 5, 1, 3, 4];
+        let mut v: Vec<Vec<u32>> = (0..7).map(|r| (0..7).map(|i| base[(i + r) % 7]).collect()).collect();
+        v.extend((0..7).map(|r| (0..7).map(|i| base[(7 + r - i) % 7]).collect::<Vec<u32>>()));
+        v.push(vec![6, 2, 0, 5, 1, 3, 4, 2]); v.push(vec![3, 3, 2, 2, 1, 0, 0, 4, 5, 6, 4]);
+        v
+    };
+    for mask in 0..128u32 { for order in &orders {
         let mut s = tpm2::TpmServer1_2::new(OEM, TBL, 1);
-        for o in [6u32, 2, 0, 5, 1, 3, 4, 2] { if mask & (1 << o) != 0 { s = match o { 0 => s.edge_triggered(), 1 => s.active_low(), 2 => s.sci_gpe(9), 3 => s.gsi(0x55), 4 => s.pci_sbdf(1, 2, 3, 4), 5 => s.bus_is_pnp(), _ => s.config_addr(gas::GAS::new(gas::AddressSpace::SystemIo, 8, 0, gas::AccessSize::ByteAccess, 0x4e)) }; } }
+        for o in order.iter().copied() { if mask & (1 << o) != 0 { s = match o { 0 => s.edge_triggered(), 1 => s.active_low(), 2 => s.sci_gpe(9), 3 => s.gsi(0x55), 4 => s.pci_sbdf(1, 2, 3, 4), 5 => s.bus_is_pnp(), _ => s.config_addr(gas::GAS::new(gas::AddressSpace::SystemIo, 8, 0, gas::AccessSize::ByteAccess, 0x4e)) }; } }
         let b = ser(&s);
         check_table("TCPA server", &b);
-        assert_eq!(b[59] as u32, mask & 0xf, "interrupt flags for option set {:#b}", mask); assert_eq!(b[58] as u32, (mask >> 4) & 7, "device flags for option set {:#b}", mask);
+        assert_eq!(b[59] as u32, mask & 0xf, "interrupt flags for option set {:#b} applied in order {:?}", mask, order); assert_eq!(b[58] as u32, (mask >> 4) & 7, "device flags for option set {:#b} applied in order {:?}", mask, order);
         assert_eq!(b[60], if mask & 4 != 0 { 9 } else { 0 }); assert_eq!(le32_at(&b, 64), if mask & 8 != 0 { 0x55 } else { 0 }); assert_eq!(&b[96..100], if mask & 16 != 0 { &[1u8, 2, 3, 4][..] } else { &[0u8, 0, 0, 0][..] });
-    }
+    } }
     // FADT flags
     use fadt::Flags as F;
     let all = [(F::Wbinvd, 0), (F::PwrButton, 4), (F::ResetRegSup, 10), (F::HwReducedAcpi, 20), (F::LowPowerS0IdleCapable, 21), (F::PersistentCpuCachesNotPersistent, 22), (F::PersistentCpuCachesArePersistent, 23)];
     for i in 0..all.len() { for j in 0..all.len() {
+        let b = ser(&fadt::FADTBuilder::new(OEM, TBL, 1).flag(all[i].0).flag(all[j].0).finalize());
+        assert_eq!(le32_at(&b, 112), (1u32 << all[i].1) | (1 << all[j].1), "FADT flags {:?} then {:?}", all[i].0, all[j].0);
         let b = ser(&fadt::FADTBuilder::new(OEM, TBL, 1).flag(all[i].0).flag(all[j].0).flag(all[i].0).finalize());
-        assert_eq!(le32_at(&b, 112), (1u32 << all[i].1) | (1 << all[j].1), "FADT flags {:?} {:?}", all[i].0, all[j].0);
+        assert_eq!(le32_at(&b, 112), (1u32 << all[i].1) | (1 << all[j].1), "FADT flags {:?} {:?} {:?}", all[i].0, all[j].0, all[i].0);
+        for k in 0..all.len() {
+            let b = ser(&fadt::FADTBuilder::new(OEM, TBL, 1).flag(all[i].0).flag(all[j].0).flag(all[k].0).finalize());
+            assert_eq!(le32_at(&b, 112), (1u32 << all[i].1) | (1 << all[j].1) | (1 << all[k].1), "FADT flags {:?} {:?} {:?}", all[i].0, all[j].0, all[k].0);
+        }
     } }
     // HMAT locality flags, CEDT restrictions (all subsets)
     let mut s = hmat::SystemLocality::new(hmat::LocalityType::SecondLevelCache, hmat::DataType::AccessLatency, hmat::MinTransferSize::SizeByteAligned, 1, 1, 1);
     assert_eq!(ser(&s)[8], 2); s.non_sequential_transfers(); assert_eq!(ser(&s)[8], 2 | 0x20); s.minimum_transfer_size_required(); s.non_sequential_transfers(); assert_eq!(ser(&s)[8], 2 | 0x30);
     for mask in 0..32u16 {
+        for ord in [vec![3u16, 0, 4, 1, 2, 3], vec![0, 1, 2, 3, 4], vec![4, 3, 2, 1, 0], vec![2, 4, 0, 3, 1], vec![1, 3, 0, 4, 2]] {
         let mut f = cedt::CxlFixedMemory::new(0, 1 << 28, cedt::InterleaveArithmetic::Modulo, cedt::InterleaveGranularity::Granularity256b, cedt::InterleaveWays::Ways1, 0);
-        for o in [3u16, 0, 4, 1, 2, 3] { if mask & (1 << o) != 0 { f = match o { 0 => f.cxl_type_2_memory(), 1 => f.cxl_type_3_memory(), 2 => f.volatile(), 3 => f.persistent(), _ => f.fixed_configuration() }; } }
+        for o in ord.iter().copied() { if mask & (1 << o) != 0 { f = match o { 0 => f.cxl_type_2_memory(), 1 => f.cxl_type_3_memory(), 2 => f.volatile(), 3 => f.persistent(), _ => f.fixed_configuration() }; } }
         f.add_target(*b"CPU0");
-        assert_eq!(le16_at(&ser(&f), 32), mask, "CFMWS restrictions");
+        assert_eq!(le16_at(&ser(&f), 32), mask, "CFMWS restrictions {:#b} in order {:?}", mask, ord);
+        }
     }
     let b = ser(&madt::ProcessorLocalApic::new(1, 2, E::DisabledOnlineCapable)); assert_eq!(le32_at(&b, 4), 2);
     let b = ser(&rimt::IdMapping::new(1, 2, 3, { let mut t = rimt::RIMT::new(OEM, TBL, 1); t.add_iommu(rimt::Iommu::new(0, None, None, None, None)) }, true, false, true)); assert_eq!(le32_at(&b, 16), 5); assert_eq!(le32_at(&b, 12), 48);
